@@ -615,7 +615,8 @@ impl Injection for Base<Float, Integer> {
     ) -> Result<<Self::CoDomain as Variant>::Element> {
         self.value_map_option(
             |arg| {
-                if (*arg as i64) as f64 == *arg {
+                // `as i64` saturates: 2^63 would become i64::MAX, which converts back to 2^63
+                if *arg < i64::MAX as f64 && (*arg as i64) as f64 == *arg {
                     Some(*arg as i64)
                 } else {
                     None
